@@ -26,7 +26,7 @@ SIZE_MODES = ["zero", "one", "seven", "eight", "minus1", "plus1", "plus8", "half
 WORDS = [0, 1, 0x7FFFFFFF, 0x80000000, 0xFFFFFFFF, 0xFFFFFFFE, 0x10000, 0xFFFF]
 TYPES = [b"moof", b"traf", b"trun", b"tfhd", b"moov", b"trak", b"mdat", b"senc", b"saiz", b"saio", b"stsd", b"avc1",
          b"mp4a", b"esds", b"avcC", b"sidx", b"emsg", b"pssh", b"uuid", b"free", b"\x00\x00\x00\x00", b"tenc", b"mvhd"]
-WATCHDOG_S = 20
+WATCHDOG_S = 240
 
 
 class Watchdog(BaseException):
@@ -57,27 +57,48 @@ def _owner(frame) -> str:
 
 
 class CallBudget:
+    """counts Python function entries (sys.monitoring PY_START, an order of magnitude cheaper than sys.setprofile)
+    and raises CallBudgetExceeded inside the code under test once the limit is passed in a dashlive frame.  The
+    cyclic collector is paused inside the region: with millions of live objects its full collections, not the
+    code under test, would dominate the time (the address-space limit still bounds memory)."""
+    TOOL = 2          # sys.monitoring.PROFILER_ID
+
     def __init__(self, limit: int):
         self.limit, self.n, self.hit = limit, 0, None
 
     def __enter__(self):
         import sys
+        mon = sys.monitoring
         self.n = 0
         self.hit = None
+        self._gc = gc.isenabled()
+        gc.disable()
 
-        def prof(frame, event, arg):
-            if event == "call":
-                self.n += 1
-                if self.n > self.limit and "/dashlive/" in frame.f_code.co_filename:
-                    sys.setprofile(None)
-                    self.hit = _owner(frame)
-                    raise CallBudgetExceeded()
-        sys.setprofile(prof)
+        def start(code, offset):
+            self.n += 1
+            if self.n > self.limit and "/dashlive/" in code.co_filename:
+                mon.set_events(self.TOOL, 0)
+                self.hit = _owner(sys._getframe(1))
+                raise CallBudgetExceeded()
+        try:
+            mon.use_tool_id(self.TOOL, "vt-call-budget")
+        except ValueError:
+            pass
+        mon.register_callback(self.TOOL, mon.events.PY_START, start)
+        mon.set_events(self.TOOL, mon.events.PY_START)
         return self
 
     def __exit__(self, *a):
         import sys
-        sys.setprofile(None)
+        mon = sys.monitoring
+        mon.set_events(self.TOOL, 0)
+        mon.register_callback(self.TOOL, mon.events.PY_START, None)
+        try:
+            mon.free_tool_id(self.TOOL)
+        except ValueError:
+            pass
+        if self._gc:
+            gc.enable()
         return False
 
 
@@ -177,10 +198,16 @@ def _try_parse(data: bytes, mode: str, lazy: bool) -> str:
     moment and everything that was being built is still referenced from the traceback): the innermost dashlive
     code object is parked in a pre-allocated slot and the frames are released by returning."""
     from .c04 import _load, ParseBudgetExceeded
-    cb = CallBudget(4_000_000 + 600 * len(data))      # a run may legitimately hold 65536 samples (about 40 calls each through parse + toJSON)
+    # a run may legitimately hold 65536 samples: about 8 calls each while parsing, about 35 each through toJSON.
+    # Two budgets, so that a loop over a corrupt count is stopped within seconds (well before the watchdog)
+    cb = CallBudget(1_000_000 + 300 * len(data))
     try:
         with cb:
             wrap = _load(data, mode, lazy, None, "br")
+            if not lazy:
+                _touch(wrap)
+        cb = CallBudget(4_000_000 + 600 * len(data))
+        with cb:
             _touch(wrap)
             for ch in wrap.children:
                 ch.toJSON()
